@@ -364,74 +364,7 @@ func checkC19(c *Ctx) {
 
 	// the policy part: OnReload installs the parsed lists of the NEW configuration field by field (all of them, each
 	// from the field of the same name), and does not re-parse into the live object
-	if f := c.fn("C19.2", lib, "RegistrationManager", "OnReload"); f != nil && len(f.Params) == 2 {
-		need := map[string]bool{"covertBlocklistSubnets": false, "covertBlocklistDomains": false, "phantomBlocklist": false, "covertAllowlistSubnets": false, "enableCovertAllowlist": false}
-		newCfg := P(f, 1)
-		eachInstr(f, func(in ssa.Instruction) {
-			switch x := in.(type) {
-			case *ssa.Store:
-				o, fld, ok := fieldOwner(x.Addr)
-				if !ok || o != "lib.RegConfig" {
-					return
-				}
-				if _, tracked := need[fld]; !tracked {
-					return
-				}
-				vp := pathOf(x.Val)
-				if vp == newCfg+"."+fld {
-					need[fld] = true
-				} else {
-					r.Bad("C19.2", "OnReload: RegConfig."+fld+" <- "+firstN(vp, 50), x.Pos(), fnName(f), "the live policy field "+fld+" is set from "+firstN(vp, 60)+" instead of the same field of the configuration that just loaded")
-				}
-			case ssa.CallInstruction:
-				if cal := x.Common().StaticCallee(); cal != nil && cal.Signature.Recv() != nil && strings.HasSuffix(typeShort(cal.Signature.Recv().Type()), "lib.RegConfig") {
-					// a copy helper: a method that only assigns fields of its receiver from the same-named fields of
-					// its one RegConfig parameter (straight-line, no calls) and is handed the new configuration - its
-					// assignments are OnReload's
-					if len(cal.Params) == 2 && len(x.Common().Args) == 2 && pathOf(x.Common().Args[1]) == newCfg && len(cal.Blocks) == 1 {
-						pure, src := true, pname(cal.Params[1])
-						var copied []string
-						eachInstr(cal, func(in2 ssa.Instruction) {
-							switch y := in2.(type) {
-							case ssa.CallInstruction:
-								pure = false
-							case *ssa.Store:
-								o, fld, ok := fieldOwner(y.Addr)
-								fa, isFA := y.Addr.(*ssa.FieldAddr)
-								if !ok || o != "lib.RegConfig" || !isFA || fa.X != ssa.Value(cal.Params[0]) || pathOf(y.Val) != src+"."+fld {
-									pure = false
-									return
-								}
-								copied = append(copied, fld)
-							}
-						})
-						if pure && len(copied) > 0 {
-							for _, fld := range copied {
-								if _, tracked := need[fld]; tracked {
-									need[fld] = true
-								}
-							}
-							return
-						}
-					}
-					rv := recvOf(x.Common())
-					if rv != nil && strings.HasSuffix(pathOf(rv), ".RegConfig") && !strings.HasPrefix(pathOf(rv), newCfg) && mutatesReceiver(cal) {
-						r.Bad("C19.2", "OnReload: calls "+cal.Name()+" on the live configuration", in.Pos(), fnName(f),
-							"OnReload runs "+cal.Name()+", which rewrites the live policy object in place: while it runs the lists are empty or half rebuilt for the ingest workers, a failure leaves a mixture in force, and state that the parser only ever switches on (the allowlist flag) survives a reload that removed it")
-					}
-				}
-			}
-		})
-		var missing []string
-		for fld, ok := range need {
-			if !ok {
-				missing = append(missing, fld)
-			}
-		}
-		sort.Strings(missing)
-		r.Check(len(missing) == 0, "C19.2", "OnReload: every parsed policy field is taken over from the new configuration", f.Pos(), fnName(f), "5 fields, each from the field of the same name",
-			"OnReload does not install "+strings.Join(missing, ", ")+" from the new configuration: after a reload the policy in force is neither the new nor the previous version (e.g. allowlist mode stays on with an empty list and every covert is refused)")
-	}
+	checkReloadTakeover(c, "C19.2")
 
 	// ---- C19.3 printers
 	r.Rule("C19.3", "statistics printers: no integer division by a variable; optional interface fields nil-guarded", 5)
@@ -1262,4 +1195,100 @@ func checkGeoIPReplaced(c *Ctx, rule string) {
 	if n == 0 {
 		r.Unk(rule, "writers of RegistrationManager.GeoIP", token.NoPos, "", "no store found")
 	}
+}
+
+// unconditional: `in` is executed on every run of f that does not panic: it is reached from the entry whatever way
+// every branch goes.
+func unconditional(f *ssa.Function, in ssa.Instruction) bool {
+	return reachGame(f, in, func(bl *ssa.BasicBlock) int {
+		if hit, _ := reachAt(f, bl, isInstr(in), nil, nil); !hit {
+			return gameAny
+		}
+		return gameAll
+	})
+}
+
+// checkReloadTakeover (C19.2, C06.9): OnReload installs the parsed lists of the NEW configuration field by field - all of
+// them, each from the field of the same name, on every path - and does not re-parse into the live object.
+func checkReloadTakeover(c *Ctx, rule string) {
+	r := c.R
+	if f := c.fn(rule, "pkg/station/lib", "RegistrationManager", "OnReload"); f != nil && len(f.Params) == 2 {
+		need := map[string]bool{"covertBlocklistSubnets": false, "covertBlocklistDomains": false, "phantomBlocklist": false, "covertAllowlistSubnets": false, "enableCovertAllowlist": false}
+		newCfg := P(f, 1)
+		var conditional []string
+		eachInstr(f, func(in ssa.Instruction) {
+			switch x := in.(type) {
+			case *ssa.Store:
+				o, fld, ok := fieldOwner(x.Addr)
+				if !ok || o != "lib.RegConfig" {
+					return
+				}
+				if _, tracked := need[fld]; !tracked {
+					return
+				}
+				vp := pathOf(x.Val)
+				if vp == newCfg+"."+fld {
+					need[fld] = true
+					if !unconditional(f, x) {
+						conditional = append(conditional, fld)
+					}
+				} else {
+					r.Bad(rule, "OnReload: RegConfig."+fld+" <- "+firstN(vp, 50), x.Pos(), fnName(f), "the live policy field "+fld+" is set from "+firstN(vp, 60)+" instead of the same field of the configuration that just loaded")
+				}
+			case ssa.CallInstruction:
+				if cal := x.Common().StaticCallee(); cal != nil && cal.Signature.Recv() != nil && strings.HasSuffix(typeShort(cal.Signature.Recv().Type()), "lib.RegConfig") {
+					// a copy helper: a method that only assigns fields of its receiver from the same-named fields of
+					// its one RegConfig parameter (straight-line, no calls) and is handed the new configuration - its
+					// assignments are OnReload's
+					if len(cal.Params) == 2 && len(x.Common().Args) == 2 && pathOf(x.Common().Args[1]) == newCfg && len(cal.Blocks) == 1 {
+						pure, src := true, pname(cal.Params[1])
+						var copied []string
+						eachInstr(cal, func(in2 ssa.Instruction) {
+							switch y := in2.(type) {
+							case ssa.CallInstruction:
+								pure = false
+							case *ssa.Store:
+								o, fld, ok := fieldOwner(y.Addr)
+								fa, isFA := y.Addr.(*ssa.FieldAddr)
+								if !ok || o != "lib.RegConfig" || !isFA || fa.X != ssa.Value(cal.Params[0]) || pathOf(y.Val) != src+"."+fld {
+									pure = false
+									return
+								}
+								copied = append(copied, fld)
+							}
+						})
+						if pure && len(copied) > 0 {
+							for _, fld := range copied {
+								if _, tracked := need[fld]; tracked {
+									need[fld] = true
+									if !unconditional(f, in) {
+										conditional = append(conditional, fld)
+									}
+								}
+							}
+							return
+						}
+					}
+					rv := recvOf(x.Common())
+					if rv != nil && strings.HasSuffix(pathOf(rv), ".RegConfig") && !strings.HasPrefix(pathOf(rv), newCfg) && mutatesReceiver(cal) {
+						r.Bad(rule, "OnReload: calls "+cal.Name()+" on the live configuration", in.Pos(), fnName(f),
+							"OnReload runs "+cal.Name()+", which rewrites the live policy object in place: while it runs the lists are empty or half rebuilt for the ingest workers, a failure leaves a mixture in force, and state that the parser only ever switches on (the allowlist flag) survives a reload that removed it")
+					}
+				}
+			}
+		})
+		var missing []string
+		for fld, ok := range need {
+			if !ok {
+				missing = append(missing, fld)
+			}
+		}
+		sort.Strings(missing)
+		r.Check(len(missing) == 0, rule, "OnReload: every parsed policy field is taken over from the new configuration", f.Pos(), fnName(f), "5 fields, each from the field of the same name",
+			"OnReload does not install "+strings.Join(missing, ", ")+" from the new configuration: after a reload the policy in force is neither the new nor the previous version (e.g. allowlist mode stays on with an empty list and every covert is refused)")
+		sort.Strings(conditional)
+		r.Check(len(conditional) == 0, rule, "OnReload: the parsed policy fields are taken over on every path", f.Pos(), fnName(f), "each take-over is reached whatever any condition says",
+			"OnReload installs "+strings.Join(uniq(conditional), ", ")+" only under a condition: the parsed lists also depend on settings the condition does not look at (the interface subnets added under covert_blocklist_public_addrs, the allowlist switch), so a reload can leave a list in force that belongs to neither the new nor a consistent old configuration")
+	}
+
 }
